@@ -58,6 +58,11 @@ func catalogue(r *vh.Run, rng *vh.RNG) []job {
 	jobs := roundJobs(w, 4, 14, "", true)
 	jobs = append(jobs, longJobs(wl)...)
 	jobs = append(jobs, splitJobs(w)...)
+	jobs = append(jobs, boundaryJobs(w, getWorld(3, 5, 20))...)
+	for _, j := range crashJobs(w) {
+		jobs = append(jobs, isolate(r, j))
+	}
+	jobs = append(jobs, bootstrapJobs(r, w)...)
 	jobs = append(jobs, fakeStateJob(wl))
 	jobs = append(jobs, relayJobs(w)...)
 	jobs = append(jobs, mixedJobs(w, wl, rng)...)
@@ -91,24 +96,24 @@ func roundJobs(w *world, hs, vs int, pfx string, core bool) []job {
 	req := int(w.nt.N.HardforkV2.RequireHeight)
 	for _, s := range []int{0, hs, req - 1, req, vs, L - 1} {
 		add(s == hs || s == vs, &roundCase{name: fmt.Sprintf("honest-from-%d", s), tags: []string{"kind:honest", regime(w, s)},
-			w: w, victim: main.Blocks[:s], view: honest, tie: true})
+			w: w, victim: main.Blocks[:s], view: honest, tie: true, honest: true})
 	}
 	{
 		// the peer is on a lighter / near-tie / heavier fork of the victim's chain
 		light := main.Fork(req + 2)
 		light.MineN(L-req-9, time.Second, 7)
 		add(true, &roundCase{name: "honest-lighter-fork", tags: []string{"kind:honest-lighter-fork", "regime:v2-checkpoint"},
-			w: w, victim: main.Blocks, view: netx.ViewOf(light), tie: true})
+			w: w, victim: main.Blocks, view: netx.ViewOf(light), tie: true, honest: true})
 		tie := main.Fork(L - 4)
 		tie.MineN(4, 3*time.Second, 8)
 		add(true, &roundCase{name: "honest-neartie-fork", tags: []string{"kind:honest-neartie-fork", "regime:v2-checkpoint"},
-			w: w, victim: main.Blocks, view: netx.ViewOf(tie), tie: true})
+			w: w, victim: main.Blocks, view: netx.ViewOf(tie), tie: true, honest: true})
 		add(false, &roundCase{name: "honest-heavier-fork", tags: []string{"kind:honest-heavier-fork", "regime:v2-checkpoint"},
-			w: w, victim: light.Blocks, view: honest, tie: true})
+			w: w, victim: light.Blocks, view: honest, tie: true, honest: true})
 		early := main.Fork(hs/2 + 1)
 		early.MineN(6, 2*time.Second, 9)
 		add(false, &roundCase{name: "honest-heavier-fork-v1", tags: []string{"kind:honest-heavier-fork", "regime:v1-addblocks"},
-			w: w, victim: early.Blocks, view: honest, tie: true})
+			w: w, victim: early.Blocks, view: honest, tie: true, honest: true})
 	}
 
 	// ---- SendHeaders corruptions (base network: victim at height 4, 22 headers are requested) ----
@@ -280,6 +285,23 @@ func roundJobs(w *world, hs, vs int, pfx string, core bool) []job {
 	cpCase(false, "two-payouts", func(a *cAns) {
 		a.block.MinerPayouts = append(append([]types.SiacoinOutput(nil), a.block.MinerPayouts...), types.SiacoinOutput{Address: types.Address{1}})
 	})
+	// the payout COUNT is not covered by the block's ID or commitment (only the first payout's
+	// address is): the length test of SendCheckpoint is all that stands between these and ApplyBlock
+	cpCase(true, "three-payouts", func(a *cAns) {
+		a.block.MinerPayouts = append(append([]types.SiacoinOutput(nil), a.block.MinerPayouts...),
+			types.SiacoinOutput{Address: types.Address{1}, Value: types.Siacoins(1000000000)}, types.SiacoinOutput{Address: types.Address{2}, Value: types.Siacoins(7)})
+	})
+	// fields of the checkpoint block that neither its ID nor its commitment covers
+	cpCase(true, "payout-value", func(a *cAns) {
+		mp := append([]types.SiacoinOutput(nil), a.block.MinerPayouts...)
+		mp[0].Value = mp[0].Value.Add(types.Siacoins(5))
+		a.block.MinerPayouts = mp
+	})
+	cpCase(false, "height-field", func(a *cAns) {
+		v2 := *a.block.V2
+		v2.Height += 3
+		a.block.V2 = &v2
+	})
 	cpCase(true, "other-block", func(a *cAns) { a.block, a.state = main.Blocks[vs-2], main.StateBefore(vs-2) })
 	cpCase(false, "no-answer", func(a *cAns) { a.fail = true })
 	stateMuts := map[string]func(cs *consensus.State){
@@ -367,9 +389,9 @@ func longJobs(wl *world) []job {
 	}
 	lhon := netx.ViewOf(wl.main)
 	add(true, &roundCase{name: "long-honest-3-requests", tags: []string{"kind:honest", "regime:v1-then-v2", "requests:3"},
-		w: wl, victim: nil, view: lhon, tie: true})
+		w: wl, victim: nil, view: lhon, tie: true, honest: true})
 	add(false, &roundCase{name: "long-honest-from-131", tags: []string{"kind:honest", "regime:v2-checkpoint", "requests:2"},
-		w: wl, victim: wl.main.Blocks[:131], view: lhon, tie: true})
+		w: wl, victim: wl.main.Blocks[:131], view: lhon, tie: true, honest: true})
 	add(true, &roundCase{name: "long-cp-bad-second-request", tags: []string{"rpc:SendCheckpoint", "corrupt:state-totalwork", "regime:v1-then-v2", "requests:3"},
 		w: wl, victim: nil, view: lhon, tie: true,
 		sc: script{mutC: func(ord int, a *cAns) {
@@ -408,8 +430,8 @@ func splitJobs(w *world) []job {
 		jobs = append(jobs, job{name: rc.name, quick: quick, run: rc.run})
 	}
 	hon := netx.ViewOf(w.main)
-	add(true, &roundCase{name: "split7-honest", tags: []string{"kind:honest", "regime:v1-then-v2", "requests:4", "split:7"}, w: w, view: hon, tie: true})
-	add(false, &roundCase{name: "split7-honest-from-3", tags: []string{"kind:honest", "regime:v1-then-v2", "requests:4", "split:7"}, w: w, victim: w.main.Blocks[:3], view: hon, tie: true})
+	add(true, &roundCase{name: "split7-honest", tags: []string{"kind:honest", "regime:v1-then-v2", "requests:4", "split:7"}, w: w, view: hon, tie: true, honest: true})
+	add(false, &roundCase{name: "split7-honest-from-3", tags: []string{"kind:honest", "regime:v1-then-v2", "requests:4", "split:7"}, w: w, victim: w.main.Blocks[:3], view: hon, tie: true, honest: true})
 	for ord := 0; ord < 4; ord++ {
 		ord := ord
 		add(ord == 1, &roundCase{name: fmt.Sprintf("split7-other-body-request-%d", ord), tags: []string{"rpc:SendV2Blocks", "corrupt:same-id-other-body", "requests:4", "split:7", fmt.Sprintf("pos:request-%d", ord)},
@@ -440,6 +462,60 @@ func splitJobs(w *world) []job {
 				}}})
 		}
 	}
+	return jobs
+}
+
+// boundaryJobs: a request whose base is EXACTLY the require height (the worker and the finishing
+// goroutine of parallelSync each decide "checkpoint path or not" from that height and have to
+// agree): the victim's tip is the block at the require height, or a request boundary falls on it
+// (common ancestor height + k * request size = require height), against an honest peer.
+func boundaryJobs(ws ...*world) []job {
+	var jobs []job
+	for _, w := range ws {
+		w := w
+		req := int(w.nt.N.HardforkV2.RequireHeight)
+		pfx := fmt.Sprintf("n%d-%d:", w.nt.N.HardforkV2.AllowHeight, req)
+		hon := netx.ViewOf(w.main)
+		add := func(rc *roundCase) {
+			rc.name = pfx + rc.name
+			rc.w, rc.view, rc.tie, rc.honest = w, hon, true, true
+			jobs = append(jobs, job{name: rc.name, quick: true, run: rc.run})
+		}
+		for _, d := range []int{-1, 0, 1} {
+			add(&roundCase{name: fmt.Sprintf("boundary-tip-at-require%+d", d), tags: []string{"kind:honest", "boundary:victim-tip-vs-require", fmt.Sprintf("base:require%+d", d)},
+				victim: w.main.Blocks[:req+d]})
+		}
+		// request size k with start + j*k = require for some j >= 1
+		for _, k := range []int{1, 2, 5} {
+			for _, start := range []int{0, 1} {
+				if (req-start)%k != 0 || start >= req {
+					continue
+				}
+				add(&roundCase{name: fmt.Sprintf("boundary-split%d-from-%d", k, start), tags: []string{"kind:honest", "boundary:request-base-on-require", fmt.Sprintf("split:%d", k)},
+					victim: w.main.Blocks[:start], sendCap: uint64(k)})
+			}
+		}
+	}
+	return jobs
+}
+
+// crashJobs: corruptions whose effect on a node that lacks the check is a panic in a goroutine
+// without recover. Each runs in a child process (isolate).
+func crashJobs(w *world) []job {
+	var jobs []job
+	main := w.main
+	const vs = 14
+	noPayouts := script{mutC: func(ord int, a *cAns) {
+		if !a.fail {
+			a.block.MinerPayouts = nil
+		}
+	}}
+	rc := &roundCase{name: "cp-no-payouts", tags: []string{"rpc:SendCheckpoint", "corrupt:no-payouts", "regime:v2-checkpoint"},
+		w: w, victim: main.Blocks[:vs], view: netx.ViewOf(main), tie: true, sc: noPayouts}
+	jobs = append(jobs, job{name: rc.name, quick: true, run: rc.run})
+	mc := &mixedCase{name: "mixed-cp-no-payouts", tags: []string{"kind:honest+byzantine", "byz:checkpoint-without-payouts", "regime:v2-checkpoint"},
+		w: w, victim: main.Blocks[:vs], honest: main.Blocks, byz: []byzSpec{{"checkpoint-without-payouts", func() *netx.View { return netx.ViewOf(main) }, noPayouts}}}
+	jobs = append(jobs, job{name: mc.name, quick: true, run: mc.run})
 	return jobs
 }
 
